@@ -26,6 +26,7 @@ import (
 	"sort"
 	"strings"
 	"sync"
+	"sync/atomic"
 	"testing"
 	"testing/synctest"
 	"time"
@@ -76,15 +77,18 @@ type Case struct {
 	DAGetDelayMs    int64 `json:"da_get_delay_ms,omitempty"`
 	DAGetFailEvery  int   `json:"da_get_fail_every,omitempty"`
 
-	ChainLen   int    `json:"chain_len,omitempty"`    // full: blocks the proposer made
-	TxBlocks   []bool `json:"tx_blocks,omitempty"`    // full: which of them carry transactions (index 0 = first block, always empty)
-	Delivery   string `json:"delivery,omitempty"`     // full: "both" | "da" | "p2p"
-	P2PEveryMs int64  `json:"p2p_every_ms,omitempty"` // full: the P2P stores receive one more item every so often
-	Flood      string `json:"flood,omitempty"`        // full: "da-header" | "da-data" | "p2p-header" | "p2p-data": more than 10000 items of that kind
-	StallP2P   bool   `json:"stall_p2p,omitempty"`    // agg: the broadcasters do not return until their context is done
-	ErrChTaken bool   `json:"errch_taken,omitempty"`  // the one-slot errCh already holds an error nobody reads (Run has taken the stop branch)
-	StopAtMs   int64  `json:"stop_at_ms"`
-	DeadlineMs int64  `json:"deadline_ms"`
+	ChainLen      int    `json:"chain_len,omitempty"`    // full: blocks the proposer made
+	TxBlocks      []bool `json:"tx_blocks,omitempty"`    // full: which of them carry transactions (index 0 = first block, always empty)
+	Delivery      string `json:"delivery,omitempty"`     // full: "both" | "da" | "p2p"
+	P2PEveryMs    int64  `json:"p2p_every_ms,omitempty"` // full: the P2P stores receive one more item every so often
+	Flood         string `json:"flood,omitempty"`        // full: "da-header" | "da-data" | "p2p-header" | "p2p-data": more than 10000 items of that kind
+	StallP2P      bool   `json:"stall_p2p,omitempty"`    // agg: the broadcasters do not return until their context is done
+	hangHits      int32
+	HangCall      string `json:"hang_call,omitempty"`           // this external call does not complete until the context it was given is done
+	BuildIsParent bool   `json:"build_ctx_is_parent,omitempty"` // NewManager / NewReaper get the context Run is later called with (cmd wiring); default: an unrelated one
+	ErrChTaken    bool   `json:"errch_taken,omitempty"`         // the one-slot errCh already holds an error nobody reads (Run has taken the stop branch)
+	StopAtMs      int64  `json:"stop_at_ms"`
+	DeadlineMs    int64  `json:"deadline_ms"`
 }
 
 const chainID = "c13chain"
@@ -311,8 +315,7 @@ func paddingData(from uint64, n int) []*types.Data {
 	return out
 }
 
-func newNode(c *Case, rootDir string) (*node, error) {
-	ctx := context.Background()
+func newNode(ctx context.Context, c *Case, rootDir string) (*node, error) {
 	n := &node{c: c, returned: map[string]time.Time{}, halted: make(chan struct{})}
 	r := rand.New(rand.NewSource(c.Seed*7919 + int64(c.Idx)))
 	priv, _, err := crypto.GenerateEd25519Key(rndReader{r})
@@ -327,8 +330,8 @@ func newNode(c *Case, rootDir string) (*node, error) {
 		return nil, err
 	}
 	n.da = newDA(c)
-	n.hb, n.db = &bcast[*types.SignedHeader]{block: c.StallP2P}, &bcast[*types.Data]{block: c.StallP2P}
-	n.seq = &seqDouble{}
+	n.hb, n.db = &bcast[*types.SignedHeader]{c: c, name: "header", block: c.StallP2P}, &bcast[*types.Data]{c: c, name: "data", block: c.StallP2P}
+	n.seq = &seqDouble{c: c}
 	n.st = store.New(newKV())
 	if c.Mode == "agg" {
 		n.gen = genesispkg.NewGenesis(chainID, c.InitialHeight, time.Now().Add(ms(c.GenesisOffset)), addr)
@@ -347,8 +350,8 @@ func newNode(c *Case, rootDir string) (*node, error) {
 	if n.chain, err = produceChain(c, n.sg, n.gen, filepath.Join(rootDir, "proposer"), n.da); err != nil {
 		return nil, err
 	}
-	hs := &p2pStore[*types.SignedHeader]{everyMs: c.P2PEveryMs}
-	dst := &p2pStore[*types.Data]{everyMs: c.P2PEveryMs}
+	hs := &p2pStore[*types.SignedHeader]{c: c, name: "header", everyMs: c.P2PEveryMs}
+	dst := &p2pStore[*types.Data]{c: c, name: "data", everyMs: c.P2PEveryMs}
 	if c.Delivery != "da" && c.InitialHeight == 1 {
 		for i := range n.chain.headers {
 			cp, cd := *n.chain.headers[i], *n.chain.datas[i]
@@ -502,7 +505,7 @@ func (o *caseOut) fail(sig, what string) {
 
 func stuckSignature(p *parked) string {
 	if p.Ext {
-		return "stuck-in-external-call-" + p.Func
+		return "loop-ignores-stop-during-" + p.Call
 	}
 	s := "uncancellable-" + p.Kind + "-" + p.Func
 	if p.Kind == "send" || p.Kind == "recv" {
@@ -532,17 +535,47 @@ func runCase(t *testing.T, c *Case, rootDir string) (out *caseOut) {
 		}
 	}()
 	synctest.Test(t, func(t *testing.T) {
-		n, err := newNode(c, rootDir)
+		// the context the node is CONSTRUCTED with (node.NewNode -> NewManager / NewReaper) and the context Run is
+		// called with: unrelated by default (the API allows it), the same one in the cmd wiring; Run derives its
+		// own cancellable context from the latter either way
+		buildCtx, endCase := context.WithCancel(context.Background())
+		defer endCase()
+		n, err := newNode(buildCtx, c, rootDir)
 		if err != nil {
 			out.err = err
 			return
 		}
 		parent, stop := context.WithCancel(context.Background())
+		if c.BuildIsParent {
+			parent, stop = buildCtx, endCase
+		}
 		go n.run(parent)
 		time.Sleep(ms(c.StopAtMs))
 		synctest.Wait()
 		at := snapshotLoops()
 		tStop := time.Now()
+		if c.HangCall != "" {
+			// the call never completes before its context is done, so "entered" = "in flight at the stop instant"
+			// (or, when the node stopped itself earlier, at that instant)
+			if atomic.LoadInt32(&c.hangHits) == 0 && c.Scenario != "" {
+				out.fail("scenario-not-reached-"+c.HangCall, "no loop was inside "+c.HangCall+" at the stop instant: the scenario no longer exercises that call")
+			}
+		}
+		// the node may have cancelled its run context by itself (a loop error): every loop must have returned
+		// within the deadline after THAT, whether or not anybody cancels the parent
+		n.mu.Lock()
+		if !n.selfStop.IsZero() && tStop.Sub(n.selfStop) >= ms(c.DeadlineMs) {
+			for _, root := range n.roots() {
+				if _, ok := n.returned[root]; !ok {
+					p := find(at, root)
+					if p == nil {
+						p = &parked{Root: root, Func: root, Kind: "unknown", What: "not parked in /repo/block"}
+					}
+					out.fail(stuckSignature(p), fmt.Sprintf("%s had not returned %d ms (virtual) after the node cancelled its run context on a loop error: parked in %s [%s] %s %s (%s)", root, tStop.Sub(n.selfStop).Milliseconds(), p.Func, p.Kind, p.What, p.Call, p.Pos))
+				}
+			}
+		}
+		n.mu.Unlock()
 		stop()
 		time.Sleep(ms(c.DeadlineMs))
 		synctest.Wait()
@@ -553,7 +586,7 @@ func runCase(t *testing.T, c *Case, rootDir string) (out *caseOut) {
 			if p := find(at, root); p != nil && !p.Ext {
 				lo.At = p
 			} else if p != nil {
-				lo.InCall = p.Func
+				lo.InCall = p.Call
 			}
 			if rt, ok := n.returned[root]; ok {
 				lo.Returned = true
@@ -566,13 +599,14 @@ func runCase(t *testing.T, c *Case, rootDir string) (out *caseOut) {
 					p = &parked{Root: root, Func: root, Kind: "unknown", What: "not parked in /repo/block"}
 				}
 				lo.Stuck = p
-				out.fail(stuckSignature(p), fmt.Sprintf("%s had not returned %d ms (virtual) after the stop request: parked in %s [%s] %s (%s)", root, c.DeadlineMs, p.Func, p.Kind, p.What, p.Pos))
+				out.fail(stuckSignature(p), fmt.Sprintf("%s had not returned %d ms (virtual) after the stop request: parked in %s [%s] %s %s (%s)", root, c.DeadlineMs, p.Func, p.Kind, p.What, p.Call, p.Pos))
 			}
 			out.loops = append(out.loops, lo)
 		}
 		out.selfStop = !n.selfStop.IsZero()
 		n.mu.Unlock()
 		// release whatever is stuck so that the bubble can end: read what nobody reads, let the sleep run out
+		endCase() // calls still in flight on the construction context return now
 		for i := 0; i < 400; i++ {
 			select {
 			case <-n.halted:
@@ -796,6 +830,19 @@ func genCase(seed int64, idx int) *Case {
 		c.DAGetDelayMs = pick[int64](r, 0, 50, 800)
 		c.DAGetFailEvery = pick(r, 0, 0, 3)
 	}
+	// 15%: one external call never completes before its context is done (a call in flight at the stop instant)
+	if r.Intn(100) < 15 {
+		if c.Mode == "agg" {
+			c.HangCall = pick(r, "exec.GetTxs", "seq.SubmitBatchTxs", "seq.GetNextBatch", "exec.ExecuteTxs", "exec.SetFinal", "da.SubmitWithOptions",
+				"bcast.WriteToStoreAndBroadcast:header", "bcast.WriteToStoreAndBroadcast:data")
+			if c.TxEveryMs == 0 {
+				c.TxEveryMs = 150
+			}
+		} else {
+			c.HangCall = pick(r, "da.GetIDs", "da.Get", "exec.ExecuteTxs", "exec.SetFinal", "p2p.GetByHeight:header", "p2p.GetByHeight:data")
+		}
+		c.BuildIsParent = r.Intn(2) == 0
+	}
 	return c
 }
 
@@ -832,6 +879,35 @@ func scenarios() []*Case {
 		}
 		out = append(out, s)
 	}
+	// a call in flight at the stop instant, for EVERY external call the loops make; the double returns only when
+	// the context it was given is done.  The blockpoints table does not cover these (it lists channel / sleep /
+	// wait operations only): this half of the stop protocol rests on these scenarios.
+	agg := func(call string) *Case {
+		return &Case{Scenario: "in-flight-" + call, Mode: "agg", InitialHeight: 1, GenesisOffset: -1000, BlockTimeMs: 500, DABlockTimeMs: 1000,
+			TxEveryMs: 150, HangCall: call, StopAtMs: 5000, DeadlineMs: 1000}
+	}
+	for _, call := range []string{"exec.GetTxs", "seq.SubmitBatchTxs", "seq.GetNextBatch", "exec.ExecuteTxs", "exec.SetFinal", "da.SubmitWithOptions",
+		"bcast.WriteToStoreAndBroadcast:header", "bcast.WriteToStoreAndBroadcast:data"} {
+		out = append(out, agg(call))
+	}
+	for _, call := range []string{"da.GetIDs", "da.Get", "exec.ExecuteTxs", "exec.SetFinal", "p2p.GetByHeight:header", "p2p.GetByHeight:data"} {
+		s = full("in-flight-full-" + call)
+		s.HangCall, s.StopAtMs, s.DeadlineMs = call, 5000, 1000
+		// DA heights arrive spaced in virtual time: the includer is signalled only when a DA blob is handled, so with an
+		// instantaneous DA scan it may never be signalled again after block 1 has been applied (a real-time race)
+		s.DAGetDelayMs, s.ExecDelayMs = 300, 100
+		if strings.HasPrefix(call, "p2p") {
+			s.Delivery = "p2p"
+		}
+		out = append(out, s)
+	}
+	// cmd wiring (construction context = the context Run is called with) and the node stops ITSELF: the aggregation
+	// loop fails at block 3 and Run cancels only its own derived context while the reaper is inside a call
+	for _, call := range []string{"exec.GetTxs", "seq.SubmitBatchTxs"} {
+		s = agg(call)
+		s.Scenario, s.BuildIsParent, s.ExecFailAt, s.StopAtMs = "self-stop-in-flight-"+call, true, 3, 8000
+		out = append(out, s)
+	}
 	return out
 }
 
@@ -845,6 +921,9 @@ type descTable struct {
 func (d *descTable) ref(p *parked) string {
 	if p == nil {
 		return "None"
+	}
+	if p.Ext {
+		p = &parked{Func: p.Func, Kind: "call", What: p.Call}
 	}
 	k := p.desc()
 	id, ok := d.ids[k]
@@ -973,6 +1052,9 @@ func TestVerif(t *testing.T) {
 			if c.ExecIgnoresCtx {
 				res.Count("execution-layer-ignores-cancellation")
 			}
+			if c.HangCall != "" {
+				res.Count("call-never-completes:" + c.HangCall)
+			}
 			switch {
 			case c.StopAtMs == 0:
 				res.Count("stop:at-start")
@@ -1055,7 +1137,7 @@ func TestVerif(t *testing.T) {
 		res.Extra["part_B_scenarios"] = scen
 	}
 	res.Distinct = len(distinct)
-	res.Rule = "the node's loop fan-out as in FullNode.Run (one-slot errCh, five loops per mode, select on errCh / parent context, wg.Wait; compared with node/full.go on every run), real block.Manager / Reaper / store, unmodified loops, in a synctest bubble; doubles: execution layer (per-call delay, cancellation lag, may ignore its context, may fail from a height on), FIFO sequencer, DA layer (delays, every k-th call fails), broadcasters, P2P stores; aggregator cases (55%): genesis 0..5 s in the past or 0.1..4.1 s in the future, lazy 30%, initial height 1 or 5, pending limit 0/2/5, mempool 0/150/700 ms, DA fast/slow; full-node cases (45%): the proposer's chain of 2..8 blocks made by a real aggregator Manager and submitted with its own code, delivered by DA, P2P or both; stop instant 0, <50 ms or uniform in 0..12 s; verdict 1 s (virtual) after the stop request; plus one fixed scenario per operation the regenerated table lists as not cancellable; non-trivial = at least one block committed; distinct = distinct (mode, lazy, genesis sign, parking positions, stuck positions)"
+	res.Rule = "the node's loop fan-out as in FullNode.Run (one-slot errCh, five loops per mode, select on errCh / parent context, wg.Wait; compared with node/full.go on every run), real block.Manager / Reaper / store, unmodified loops, in a synctest bubble; the node is constructed with one context and run with another (or, 50% of the in-flight cases, the same, as cmd does), Run derives its own; doubles: execution layer (per-call delay, cancellation lag, may ignore its context, may fail from a height on; in 15% of the cases one external call - any of the 12 the loops make - blocks until the context it was given is done), FIFO sequencer, DA layer (delays, every k-th call fails), broadcasters, P2P stores; aggregator cases (55%): genesis 0..5 s in the past or 0.1..4.1 s in the future, lazy 30%, initial height 1 or 5, pending limit 0/2/5, mempool 0/150/700 ms, DA fast/slow; full-node cases (45%): the proposer's chain of 2..8 blocks made by a real aggregator Manager and submitted with its own code, delivered by DA, P2P or both; stop instant 0, <50 ms or uniform in 0..12 s; verdict 1 s (virtual) after the stop request; plus one fixed scenario per operation the regenerated table lists as not cancellable and one 'call in flight at the stop instant' scenario per external call of each loop (16); non-trivial = at least one block committed; distinct = distinct (mode, lazy, genesis sign, parking positions, stuck positions)"
 	sort.Strings(dt.defs)
 	res.Cases = len(cases)
 	header := "From Coq Require Import String NArith List Bool.\nFrom Verif Require Import Model.StopProto gen.BlockPoints Check.StopCheck."
